@@ -159,6 +159,77 @@ def event_ob(role, nframes):
     return prep, run
 
 
+def complete_ob(role, nparts):
+    """the stream's bytes cut into `nparts` consecutive STREAM frames plus a separate empty FIN frame, every
+    frame delivered at least once in any order (one duplicate): all bytes arrive in order and the end of the
+    stream is reported exactly once -- also when the FIN overtakes the data"""
+    name = "c05_busy_%s" % role
+
+    def prep():
+        c05._quiet()
+        cm.prepare(name, c05.busy(role))
+
+    def run():
+        from aioquic import tls
+        from aioquic.quic.events import StreamDataReceived
+
+        c05._quiet()
+        p = cm.get(name, role) if sx.E.mode == "sym" else cm.Peer(*c05._replay_pair(role, "busy"))
+        conn = p.conn
+        sid = 12 + (1 if role == "client" else 0)
+        sx.register_keys(range(0x40))
+        sx.register_keys(list(conn._streams) + list(conn._streams_finished) + [sid])
+        S = sx.Fn("S")
+        B = sx.BufferClass()
+        frames = []
+        off = 0
+        for j in range(nparts):
+            k = [1, 2, 3][sx.Choice("len%d" % j, 3)]
+            buf = B(capacity=64)
+            buf.push_uint8(0x0E)
+            buf.push_uint_var(sid)
+            c05.push_v(buf, off)
+            buf.push_uint_var(k)
+            buf.push_bytes(sx.BytesOf(S, off, k))
+            frames.append(buf.data)
+            off += k
+        total = off
+        buf = B(capacity=64)
+        buf.push_uint8(0x0F)
+        buf.push_uint_var(sid)
+        c05.push_v(buf, total)
+        buf.push_uint_var(0)
+        frames.append(buf.data)
+        n = len(frames)
+        order = [sx.Choice("pick%d" % j, n) for j in range(n + 1)]
+        sx.assume(all(i in order for i in range(n)))
+        events = []
+        t = 1.0
+        for idx in order:
+            p.deliver(tls.Epoch.ONE_RTT, frames[idx], now=t)
+            t += 0.01
+            while True:
+                ev = conn.next_event()
+                if ev is None:
+                    break
+                events.append(ev)
+        sx.check(conn._close_event is None, "reordered frames of a well-behaved peer closed the connection")
+        pos = 0
+        ends = 0
+        for ev in events:
+            if isinstance(ev, StreamDataReceived) and ev.stream_id == sid:
+                ln = sx.length_of(ev.data)
+                sx.check_bytes_eq(ev.data, sx.BytesOf(S, pos, ln), "stream data events are not the stream's bytes in order")
+                pos = pos + ln
+                if ev.end_stream:
+                    ends += 1
+                    sx.check(pos == total, "end of stream before all bytes")
+        sx.check(pos == total, "every frame was delivered but only %s of %s bytes reached the application" % (pos, total))
+        sx.check(ends == 1, "every frame incl. the FIN was delivered but the end of the stream was reported %d times" % ends)
+
+    return prep, run
+
+
 def late_ob(role):
     """frames that arrive (again) for a stream that is already finished and discarded are ignored"""
     name = "c05_busy_%s" % role
@@ -219,6 +290,8 @@ def obligations(tier):
     for role in ("client", "server"):
         prep, run = event_ob(role, 3 if T else 2)
         obs.append(Ob("C01.event.%s" % role, run, cm.conn_shims, [Q + "receive_datagram", Q + "_handle_stream_frame", Q + "_get_or_create_stream", "aioquic.quic.stream.QuicStreamReceiver.handle_frame"], bounds="%d STREAM frames (offset <= 40, length 0 or 2, FIN on frames ending at the final size) of one new peer-initiated stream of symbolic total size, delivered in any order with repetition (%d deliveries)" % ((3, 4) if T else (2, 3)), prepare=prep, budget_s=2400 if T else 280, max_decisions=1500, stubs=["CryptoPair -> transparent"]))
+        prep, run = complete_ob(role, 3 if T else 2)
+        obs.append(Ob("C01.complete.%s" % role, run, cm.conn_shims, [Q + "receive_datagram", Q + "_handle_stream_frame", "aioquic.quic.stream.QuicStreamReceiver.handle_frame"], bounds="a peer-opened stream of %d consecutive STREAM frames of 1-3 symbolic bytes each plus a separate empty FIN frame; every order of delivery with one duplicate in which each frame arrives at least once" % (3 if T else 2), prepare=prep, budget_s=900 if T else 250, max_decisions=1500, stubs=["CryptoPair -> transparent", "tls.Context -> stub"]))
         prep, run = late_ob(role)
         obs.append(Ob("C01.late.%s" % role, run, cm.conn_shims, [Q + "receive_datagram", Q + "_get_or_create_stream"], bounds="one STREAM / RESET_STREAM / MAX_STREAM_DATA / STOP_SENDING / STREAM_DATA_BLOCKED frame with symbolic fields for each finished and discarded stream", prepare=prep, budget_s=280, max_decisions=900, stubs=["CryptoPair -> transparent"]))
     return obs
